@@ -8,7 +8,7 @@ TECHNIQUE = "static analysis over type-checked MIR: serializer-constructor ident
 LEVEL_TEXT = """Static, all-paths decision of the structural clauses (serde_json's escaping and number/string round trip are trusted, not decided): (J1) the serializer is built with serde_json::Serializer::new (compact formatter) on the writer parameter; no pretty/with_formatter constructor anywhere in the module; (J2) the only uses of the writer in encode_inner are that serializer and, after the serialize call's success edge, exactly one write_all of NEWLINE on every Ok path — nothing before, between or after; (J3) the derived Serialize for Message emits the keys time, level, message, module_path, file, line, target, thread, thread_id, mdc in that order, skip_field is guarded by Option::is_none exactly for module_path, file and line, and those three fields of the Message aggregate come straight from Record::{module_path,file,line} (no unwrap_or placeholder); level/target/args/thread likewise from their accessors; (J4) time and message go through Serializer::collect_str, the MDC serialiser uses serialize_map/serialize_key/serialize_value for every log_mdc::iter entry and keeps the first error, and no raw io::Write call occurs inside a Serialize impl of the module."""
 LEVEL_NOTE = "Trusted: rustc MIR/callee resolution; serde's derive output (as compiled) and serde_json's escaping/formatting; log_mdc::iter visits every entry."
 EXPLANATION = """Decided: J1 compact serializer, J2 exactly one trailing newline, J3 field/skip table and field provenance, J4 everything passes the escaper. Undecided: serde_json's escaping and exact round trip of strings/numbers."""
-DECIDED = ["J1", "J2", "J3", "J4"]
+DECIDED = ["J1", "J2", "J3", "J4", "J5/J6 sink-side premise: the rolling appender reopens in append mode unless it truncates (C05.R5 re-evaluated)"]
 UNDECIDED = ["serde_json escaping / round trip (trusted)"]
 TRUSTED = ["rustc nightly MIR + Instance::try_resolve", "serde / serde_json", "log-mdc"]
 
